@@ -335,6 +335,31 @@ def b_split(P, s, a, b, c, name):
         return dict(f=lambda t: t.unbind(d), ops=[i], klass="move")
 
 
+def _to_form(dt, b, c):
+    """Tensor.to in one of its call forms (dtype alone, device and dtype, another tensor, keywords), in the ambient mode or
+    inside torch.inference_mode() -- where Tensor.to is not decomposed and reaches the tensor as aten.to with its positional
+    arguments (the result is cloned on the way out: inference tensors cannot take part in the rest of the program)"""
+    form, infer = c % 4, b % 3 == 0
+
+    def go(t):
+        if form == 0:
+            return t.to(dt)
+        if form == 1:
+            return t.to("cpu", dt)
+        if form == 2:
+            return t.to(torch.empty(0, dtype=dt))
+        return t.to(device="cpu", dtype=dt)
+
+    def f(t):
+        if not infer:
+            return go(t)
+        with torch.inference_mode():
+            r = go(t)
+        return r.clone()
+
+    return f
+
+
 def b_copy(P, s, a, b, c, name):
     i = P.pick(s[0], is_ft)
     if i is None:
@@ -363,8 +388,8 @@ def b_copy(P, s, a, b, c, name):
             return dict(f=lambda t: t.to(dt).to(torch.float32), ops=[i], klass="pass", dtype_move=dt)
         if not dt.is_floating_point:
             # a float tensor can be cast to an integer dtype (truncation): so can a quantized one, through its values
-            return dict(f=lambda t: t.to(dt), ops=[i], klass="pass", dtype_move=dt)
-        return dict(f=lambda t: t.to(dt), ops=[i], klass="rescale", copyop=True, dtype_move=dt)
+            return dict(f=_to_form(dt, b, c), ops=[i], klass="pass", dtype_move=dt)
+        return dict(f=_to_form(dt, b, c), ops=[i], klass="rescale", copyop=True, dtype_move=dt)
     if name == "to_meta":
         return dict(f=lambda t: t.to("meta"), ops=[i], klass="meta")
     if name == "deepcopy":
